@@ -32,11 +32,14 @@ LaterWritesSucceed == ev = "Probe" => obs.probe = "ok"
 \* liveness, judged at the end of the bounded fair gated drain: nobody is left spinning or blocked
 NoStuckWriter == ev = "Drain" => AllDone
 \* the counter equals the number of writers between start and finish
+\* Counted for certain: between start and the beginning of finishWrite's bookkeeping. Possibly still counted: the last
+\* writer of an abort while it clears the deadline (before or after its decrement - the property does not say which).
 InFlight == Cardinality({p \in Writers : obs.pc[p] \in InFlightPCs})
+Clearing == Cardinality({p \in Writers : obs.pc[p] \in {"c_load", "c_clear", "c_store"}})
+CountExact == InFlight <= obs.st.n /\ obs.st.n <= InFlight + Clearing
 \* nobody's write fails with a timeout unless an abort took effect while that write was in flight
 \* (hit already reflects this step, which never changes it for a write)
 NoSpuriousTimeout == ev = "WWriteTmo" => who \in hit
-CountExact == obs.st.n = InFlight
 P(n) == CASE n = "Clean" -> Clean [] n = "LaterWritesSucceed" -> LaterWritesSucceed
           [] n = "NoStuckWriter" -> NoStuckWriter [] n = "CountExact" -> CountExact
           [] n = "NoSpuriousTimeout" -> NoSpuriousTimeout
